@@ -196,7 +196,9 @@ class RunInfo:
 def _requires_serialization(storage: str | dict[OUTPUT_TYPE, str]) -> bool:
     if isinstance(storage, str):
         return get_storage_class(storage).requires_serialization
-    return any(get_storage_class(s).requires_serialization for s in storage.values())
+    # Resolve every storage class first (no short-circuit): an unknown name must raise here
+    storage_classes = [get_storage_class(s) for s in storage.values()]
+    return any(cls.requires_serialization for cls in storage_classes)
 
 
 def _maybe_run_folder(
